@@ -32,6 +32,7 @@ func main() {
 		replay()
 		chk.Finish()
 	}
+	runDefaultEncoding() // process-wide setting: before anything else, in one worker
 	// decoder side (tables, code words, masks)
 	runTables()
 	runCharCount()
